@@ -31,6 +31,8 @@ impl Lat {
             1 => for j in 0..=4 * self.n { for i in 0..=4 * self.n { v.push((i as f32 / 4.0, j as f32 / 4.0)); } },
             // half-pixel lattice translated by +57 (non-small magnitudes)
             2 => for j in 0..=2 * self.n { for i in 0..=2 * self.n { v.push((57.0 + i as f32 / 2.0, 57.0 + j as f32 / 2.0)); } },
+            // half-pixel lattice translated far from the origin (coarser f32 spacing): x by +1000, y by +700
+            4 => for j in 0..=2 * self.n { for i in 0..=2 * self.n { v.push((1000.0 + i as f32 / 2.0, 700.0 + j as f32 / 2.0)); } },
             // half-pixel lattice with every coordinate also nudged by -1 / +1 ulp (rounding-boundary inputs)
             3 => for j in 0..=2 * self.n { for i in 0..=2 * self.n { for dy in -2i32..=1 { for dx in -2i32..=1 {
                 let nud = |c: f32, d: i32| if c == 0.0 || d == 0 { c } else { f32::from_bits((c.to_bits() as i32 + d) as u32) };
@@ -114,7 +116,7 @@ fn check_interp<A: Attr>(t: [(f32, f32); 3], zi: usize, r: &mut Report, fam: &st
     // perspective-correct attribute a_k, handed to the rasterizer pre-divided: v_k = a_k * z_k
     let a: [Vec<f32>; 3] = std::array::from_fn(|k| (0..A::N).map(|c| [0.0f32, 1.0, 0.25][(k + c) % 3] + 0.37 * c as f32).collect());
     let v: [Vec<f32>; 3] = std::array::from_fn(|k| a[k].iter().map(|x| x * zs[k]).collect());
-    let key = |cl: &str| format!("{cl}|{}|{fam}|{t:?}|z={zs:?}", A::NAME);
+    let key = |cl: &str| format!("{cl}|{fam}|{}|{t:?}|z={zs:?}", A::NAME);
     let case = || obj! {"kind" => "interp", "type" => A::NAME, "fam" => fam, "zi" => zi, "t" => J::Arr(t.iter().flat_map(|p| [fbits(p.0), fbits(p.1)]).collect())};
     let verts: [_; 3] = std::array::from_fn(|k| vertex(pt3(t[k].0, t[k].1, zs[k]), A::make(&v[k])));
     let mut frags: Vec<(usize, usize, [f32; 3], Vec<f64>)> = vec![];
@@ -139,7 +141,7 @@ fn check_interp<A: Attr>(t: [(f32, f32); 3], zi: usize, r: &mut Report, fam: &st
         if pos.iter().any(|c| !c.is_finite()) || var.iter().any(|c| !c.is_finite()) {
             let ys = [t[0].1, t[1].1, t[2].1]; let mut s = ys; s.sort_by(|a, b| a.total_cmp(b));
             let shape = if s[2] - s[1] == 1.0 { "lower-half-one-row" } else if s[1] == s[2] { "flat-bottom" } else if s[0] == s[1] { "flat-top" } else { "general" };
-            r.violation(format!("nan|{shape}|{}|{fam}|{t:?}|z={zs:?}", A::NAME), format!("fragment ({x},{y}) of triangle {t:?} has non-finite pos {pos:?} / var {var:?}"), case());
+            r.violation(format!("nan|{fam}|{shape}|{}|{t:?}|z={zs:?}", A::NAME), format!("fragment ({x},{y}) of triangle {t:?} has non-finite pos {pos:?} / var {var:?}"), case());
             return;
         }
         let c = [*x as f64 + 0.5, *y as f64 + 0.5];
@@ -158,7 +160,7 @@ fn check_interp<A: Attr>(t: [(f32, f32); 3], zi: usize, r: &mut Report, fam: &st
             let tol = 0.005 * (hi - lo) + 1e-5 * hi.abs().max(lo.abs());
             if (var[ci] - want).abs() > tol {
                 let persp = (var[ci] - vp).abs() <= tol && (zmax - zmin) > 0.0;
-                r.violation(format!("{}|{}|{fam}|{t:?}|z={zs:?}", if persp { "attr-not-perspective-divided" } else { "attr" }, A::NAME), format!("pixel ({x},{y}) component {ci}: var {} expected {want} = plane {vp} / depth {zp} (tol {tol:.2e})", var[ci]), case());
+                r.violation(format!("{}|{fam}|{}|{t:?}|z={zs:?}", if persp { "attr-not-perspective-divided" } else { "attr" }, A::NAME), format!("pixel ({x},{y}) component {ci}: var {} expected {want} = plane {vp} / depth {zp} (tol {tol:.2e})", var[ci]), case());
                 return;
             }
         }
@@ -182,6 +184,8 @@ fn families(quick: bool) -> Vec<(String, Vec<(f32, f32)>, usize, bool)> {
     f.push((format!("half-px N={n}"), Lat { kind: 0, n }.points(), 0, false));
     for o in 1..5 { f.push((format!("half-px N={} offset {}", if quick { 3 } else { 5 }, OFFS[o]), Lat { kind: 0, n: if quick { 3 } else { 5 } }.points(), o, false)); }
     f.push((format!("half-px N=3 +57"), Lat { kind: 2, n: 3 }.points(), 0, false));
+    f.push((format!("half-px N=3 +1000/+700"), Lat { kind: 4, n: 3 }.points(), 0, false));
+    f.push((format!("half-px N=3 +1000/+700 offset 0.1"), Lat { kind: 4, n: 3 }.points(), 2, false));
     f.push((format!("half-px N={} nudged by -2..+1 ulp", if quick { 1 } else { 2 }), Lat { kind: 3, n: if quick { 1 } else { 2 } }.points(), 0, false));
     if !quick {
         f.push(("quarter-px N=3".into(), Lat { kind: 1, n: 3 }.points(), 0, false));
